@@ -201,18 +201,38 @@ def run():
         if len(ch) > 4:
             continue
         base = sum(c[0][1] for c in ch)
-        for slack, first in ((0, False), (1, True)):
-            sub = _coll.bounded_trace(ch, base + slack, first)
+        for slack, first, early in ((0, False, False), (1, True, False), (0, False, True)):
+            sub = _coll.bounded_trace(ch, base + slack, first, early)
             n_coll += 1
             key = json.dumps(sub, sort_keys=True)
             d = distinct.get(key)
             if d is None:
                 distinct[key] = {"sub": sub, "cls": {"EditSequence"}, "n": 1,
-                                 "case": ("collection", ch, base + slack, first), "active": True}
+                                 "case": ("collection", ch, base + slack, first, early), "active": True}
             else:
                 d["n"] += 1
                 d["cls"].add("EditSequence")
     chk.extra["scripted_collection_histories"] = n_coll
+    # the fixed-arity compound edits KeyValuePairEdit / XMLElementEdit over scripted sub-edits (L2 model: spec/Compound.tla,
+    # checked and bound in C05): the sum of its parts must obey the protocol in whatever order the parts are refined
+    from props import _compound
+    n_cmp = 0
+    for ch in scheds:
+        cfgs = ([("kvp", ch), ("seq+2", ch + [[], []]), ("seq-1", ch + [[], []])] if len(ch) == 2 else [("xmlnt", [ch[0], ch[1], [], ch[2]])] if len(ch) == 3
+                else [("xml", ch)] if len(ch) == 4 else [])
+        for config, chains in cfgs:
+            for first in (False, True):
+                sub = _compound.bounded_trace(config, chains, first)
+                n_cmp += 1
+                key = json.dumps(sub, sort_keys=True)
+                d = distinct.get(key)
+                cls = "KeyValuePairEdit" if config == "kvp" else "FixedLengthSequenceEdit" if config.startswith("seq") else "XMLElementEdit"
+                if d is None:
+                    distinct[key] = {"sub": sub, "cls": {cls}, "n": 1, "case": ("compound", chains, config, first), "active": True}
+                else:
+                    d["n"] += 1
+                    d["cls"].add(cls)
+    chk.extra["scripted_compound_histories"] = n_cmp
     # the bipartite matcher over scripted edges (L2 model: spec/Matcher.tla, bound by MatcherTrace.tla)
     from props import _matcher
     n_match = 0
@@ -369,10 +389,15 @@ def replay(path):
         corpus._quiet_env()
         from props import _matcher
         res = {"subs": [("WeightedBipartiteMatcher", _matcher.bounded_trace(rp["case"][2][0], rp["case"][2][1], rp["case"][1], rp["case"][3]))]}
+    elif rp["case"][0] == "compound":
+        corpus._quiet_env()
+        from props import _compound
+        res = {"subs": [("KeyValuePairEdit" if rp["case"][2] == "kvp" else "FixedLengthSequenceEdit" if rp["case"][2].startswith("seq") else "XMLElementEdit",
+                         _compound.bounded_trace(rp["case"][2], rp["case"][1], rp["case"][3]))]}
     elif rp["case"][0] == "collection":
         corpus._quiet_env()
         from props import _coll
-        res = {"subs": [("EditSequence", _coll.bounded_trace(rp["case"][1], rp["case"][2], rp["case"][3]))]}
+        res = {"subs": [("EditSequence", _coll.bounded_trace(rp["case"][1], rp["case"][2], rp["case"][3], bool(rp["case"][4:] and rp["case"][4])))]}
     else:
         res = _one((tuple(rp["case"]), 4, rp["active"]))
     traces = [s for _, s in res["subs"]]
